@@ -59,12 +59,20 @@ var knownConsumers = map[string]string{
 }
 
 func wellKnownMime(tn string) (string, bool) {
+	// several patterns may match: pick the one that sorts first, so that the result does not depend on map iteration order
+	var matched []string
+	names := make(map[string]string)
 	for k, v := range mediaTypeNames {
 		if k.MatchString(tn) {
-			return v, true
+			matched = append(matched, k.String())
+			names[k.String()] = v
 		}
 	}
-	return "", false
+	if len(matched) == 0 {
+		return "", false
+	}
+	sort.Strings(matched)
+	return names[matched[0]], true
 }
 
 func mediaMime(orig string) string {
